@@ -207,6 +207,48 @@ func runC02(r *Run) {
 	r.count("byte0.exhaustive")
 	// the streaming decoder reads the same layout: every position of the ring's end inside the header fields
 	r.wrapSweep(1200, false)
+	// v2 metadata whose encoding ends exactly at, one below and one above the 16-bit budget (the pair that does not fit
+	// is left out; metadata_len must describe what is really there)
+	for _, vb := range []int{32760, 32761, 32762} {
+		p := &PK{Type: 1, Cmd: 9, Rid: 3, Timeout: 7, Codec: 1, Body: []byte("x"),
+			Vals: map[string]string{"a": strings.Repeat("p", 32767), "b": strings.Repeat("q", vb)}}
+		if fr := r.packCase(2, p, 0); fr != nil {
+			if _, n, verdict := refDecode(2, fr); verdict != "OK" || n != len(fr) {
+				r.violate(Violation{What: "the encoder's output is not one whole frame by its own length fields", Case: fmt.Sprintf("v2 request, metadata a=32767 bytes, b=%d bytes: frame of %d bytes, layout says %d (%s)", vb, len(fr), n, verdict)})
+			}
+		}
+		r.count("pack.metadata-budget-edge")
+	}
+	// a conformant frame that follows a rejected one on the same connection context decodes like on a fresh context
+	for v := 1; v <= 2; v++ {
+		bads := []*RefFrame{{V: v, Type: 3, Gzip: true, Cmd: 7, Body: []byte("abcd"), MLenField: -1, BLenField: -1}}
+		if v == 2 {
+			bads = append(bads, &RefFrame{V: 2, Type: 3, Cmd: 7, Meta: []byte{0x05, 'k'}, Body: []byte("abcd"), MLenField: -1, BLenField: -1})
+		}
+		for bi, bad := range bads {
+			for _, good := range []*RefFrame{
+				{V: v, Type: 1, Cmd: 9, Rid: 0x01020304, Timeout: 0x0506, Body: []byte("a request after the failure"), MLenField: -1, BLenField: -1},
+				{V: v, Type: 2, Cmd: 9, Rid: 77, Status: 3, Verify: true, Nonce: 5, Sig: []byte("0123456789abcdef"), Body: []byte("ok"), MLenField: -1, BLenField: -1},
+				{V: v, Type: 3, Cmd: 9, Body: nil, MLenField: -1, BLenField: -1}} {
+				ctx := newCtx(1, uint8(v))
+				rb := ringAt(4096, 0)
+				rb.Write(bad.encode())
+				o1, _, _ := implUnpack(v, ctx, rb)
+				rb2 := ringAt(4096, 0)
+				rb2.Write(good.encode())
+				o2, _, _ := implUnpack(v, ctx, rb2)
+				rb3 := ringAt(4096, 0)
+				rb3.Write(good.encode())
+				o3, _, _ := implUnpack(v, newCtx(1, uint8(v)), rb3)
+				if !strings.HasPrefix(o1, "ERR") || o2 != o3 || !strings.HasPrefix(o3, "PKT") {
+					r.violate(Violation{What: "a conformant frame decoded after a rejected frame on the same context differs from its decoding on a fresh context",
+						Case: fmt.Sprintf("v%d streaming: rejected frame %d (%s), then %s", v, bi, hx(bad.encode()), hx(good.encode())), Impl: o1 + " ; then " + o2, Expect: o3})
+				}
+				r.st.Evaluations++
+				r.count("unpack.after-rejected-frame")
+			}
+		}
+	}
 }
 
 func samePK(v int, a, b *PK, orig []byte) string {
